@@ -302,6 +302,9 @@ pub struct ForestProfile {
     /// also give known classes properties the database marks DoesNotSerialize (Part.Position,
     /// Mass, ...): both codecs drop them, and nothing else may change
     pub non_serializing: bool,
+    /// sometimes give a known Int64 / Float64 property an Int32 / Float32 value (both writers
+    /// accept it and store it widened)
+    pub narrow_numbers: bool,
 }
 
 pub const KNOWN_CLASS_POOL: &[&str] = &[
@@ -669,6 +672,8 @@ fn resolve(raw: Vec<RawNode>, root_sel: Vec<u16>, shape: u8, profile: &ForestPro
                                 value_from_seed(VariantType::Enum, profile.vals, rp.seed)
                             }
                         }
+                        Ty::Value(VariantType::Int64) if profile.narrow_numbers && rp.seed % 5 == 0 => value_from_seed(VariantType::Int32, profile.vals, rp.seed),
+                        Ty::Value(VariantType::Float64) if profile.narrow_numbers && rp.seed % 5 == 0 => value_from_seed(VariantType::Float32, profile.vals, rp.seed),
                         Ty::Value(t) => value_from_seed(*t, profile.vals, rp.seed),
                     };
                     if sp.view.canonical == "UniqueId" {
